@@ -480,6 +480,31 @@ func genC14Case(t *rapid.T) c14Case {
 	if rapid.IntRange(0, 3).Draw(t, "hasiv") == 0 {
 		c.BaseIV = rapid.SliceOfN(rapid.Byte(), 1, 8).Draw(t, "baseiv")
 	}
+	switch rapid.IntRange(0, 11).Draw(t, "extra-odd") {
+	case 0:
+		// a text label that spells the number of a label the key also has (text and integer labels are different labels)
+		c.Extra = append(c.Extra, rc.E(rc.Text(rapid.SampledFrom([]string{"-1", "-2", "-3", "-4", "1", "2", "3", "4", "5", "0", ""}).Draw(t, "elabel-numeric")), gen.Leaf(t, gen.ValOpts{})))
+		stats.Class("extra/text-label-spelling-a-number")
+		return c
+	case 1:
+		// an integer label next to the text label that spells it
+		l := int64(rapid.SampledFrom([]int{-70001, -7, 6, 99, 65536}).Draw(t, "twin-label"))
+		c.Extra = append(c.Extra, rc.E(rc.Int(l), gen.Leaf(t, gen.ValOpts{})), rc.E(rc.Text(fmt.Sprint(l)), gen.Leaf(t, gen.ValOpts{})))
+		stats.Class("extra/integer-and-text-twin")
+		return c
+	case 2:
+		// many parameters (whatever limit an implementation places on the number of map entries)
+		n := rapid.SampledFrom([]int{9, 10, 11, 12, 13, 14, 15, 16, 17, 20, 30, 33, 64, 65, 130}).Draw(t, "many-extra")
+		for i := 0; i < n; i++ {
+			if i%2 == 0 {
+				c.Extra = append(c.Extra, rc.E(rc.Int(int64(1000+i)), rc.Int(int64(i))))
+			} else {
+				c.Extra = append(c.Extra, rc.E(rc.Text(fmt.Sprintf("p%d", i)), rc.Bytes([]byte{byte(i)})))
+			}
+		}
+		stats.Class("extra/many-parameters")
+		return c
+	}
 	if rapid.IntRange(0, 3).Draw(t, "hasextra") == 0 {
 		if rapid.Bool().Draw(t, "extra-text") {
 			c.Extra = append(c.Extra, rc.E(rc.Text(rapid.StringMatching(`[a-z]{1,6}`).Draw(t, "elabel")), gen.Leaf(t, gen.ValOpts{})))
